@@ -87,6 +87,18 @@ Fixpoint chain_kind (sc : schema) (c : Z) (chain : list Z) : option fkind :=
   end.
 
 Definition eqne (op : cmpop) : bool := match op with OEq | ONe => true | _ => false end.
+(* the (class, attribute) a chain ends on, and whether that column is Enum-typed *)
+Fixpoint chain_end (sc : schema) (c : Z) (chain : list Z) : option (Z * Z) :=
+  match chain with
+  | [] => None
+  | [a] => Some (c, a)
+  | a :: rest => match field_kind sc c a with Some (FRel t) => chain_end sc t rest | _ => None end
+  end.
+Definition enum_end (sc : schema) (c : Z) (chain : list Z) : bool :=
+  match chain_end sc c chain with
+  | Some (c', a) => existsb (fun p => (fst p =? c') && (snd p =? a)) (sc_enums sc)
+  | None => false
+  end.
 Definition attr_name : Z := 1.      (* harness: "name" *)
 Definition attr_id_ : Z := 2.       (* harness: "id_" *)
 
@@ -124,6 +136,12 @@ Section Translate.
     | _ => false
     end.
   Definition is_var (x : operand) : bool := match x with OVar _ => true | _ => false end.
+  (* isinstance(getattr(side, "type", None), sqlalchemy.Enum): only a column has a type *)
+  Definition enum_col (x : operand) : bool :=
+    match x with
+    | OAttr v ch => match assoc v vars with Some c => enum_end sc c ch | None => false end
+    | _ => false
+    end.
   (* a bare variable whose class has a name (and no id_): DomainValueExtractor finds its first domain element's row by name *)
   Definition named_var (x : operand) : bool :=
     match x with
@@ -191,7 +209,9 @@ Section Translate.
         match toperand st l with
         | ROk a st1 =>
             match toperand st1 r with
-            | ROk b st2 => match mk_cmp op a b with Some p => ROk (Some p) st2 | None => RReject end
+            | ROk b st2 =>
+                if negb (eqne op) && (enum_col l || enum_col r) then RReject     (* Enum members have no order *)
+                else match mk_cmp op a b with Some p => ROk (Some p) st2 | None => RReject end
             | RReject => RReject | RCrash => RCrash | RUnmod => RUnmod
             end
         | RReject => RReject | RCrash => RCrash | RUnmod => RUnmod
@@ -374,10 +394,13 @@ Definition operand_shape (sc : schema) (sel root : Z) (x : operand) : bool :=
   | _ => false
   end.
 Definition none_lit (x : operand) : bool := match x with OLit VNull => true | _ => false end.
+Definition enum_op (sc : schema) (root : Z) (x : operand) : bool :=
+  match x with OAttr _ ch => enum_end sc root ch | _ => false end.
 Fixpoint cond_shape (sc : schema) (sel root : Z) (c : cond) : bool :=
   match c with
   | CCmp op (OAttr v ch) r =>
-      operand_shape sc sel root (OAttr v ch) && operand_shape sc sel root r && (eqne op || negb (none_lit r))
+      operand_shape sc sel root (OAttr v ch) && operand_shape sc sel root r && (eqne op || negb (none_lit r)) &&
+      (eqne op || negb (enum_op sc root (OAttr v ch) || enum_op sc root r))
   | CContains (OList cs) (OAttr v ch) | CInSet cs (OAttr v ch) => operand_shape sc sel root (OAttr v ch) && forallb scalar_val cs
   | CTruth (OAttr v ch) => operand_shape sc sel root (OAttr v ch)
   | CAnd p q | COr p q => cond_shape sc sel root p && cond_shape sc sel root q
